@@ -58,7 +58,7 @@ for pkg in ['runtime/value','interpreter/value']:
     r=['\n// Every member the analyzer offers on a type exists on every value of that type.\n\n']
     for kind,(st,vt,mem) in T.items():
         names=sorted(list(mem)+OPTIONAL.get(kind,[]))
-        inv = ('    loop 1 invariant fresh(fields) && '+' && '.join(f'haskey(fields, "{n}")' for n in names)+'\n') if kind=='Object' else ''
+        inv = ('    loop 1 invariant fresh(fields) && '+' && '.join(f'haskey(fields, "{n}")' for n in names)+'\n    loop 1 invariant forall k string in keys(self.FieldsInternal) :: visited(k) ==> haskey(fields, k)\n    ensures @has-every-own-field ret1 == nil ==> forall k string in keys(self.FieldsInternal) :: haskey(ret0, k)\n') if kind=='Object' else ''
         r.append(f'/*@ func (self {vt}) Fields\n    serves C18, C02\n    ensures @has-every-offered-member ret1 == nil ==> '+' && '.join(f'haskey(ret0, "{n}")' for n in names)+'\n    ensures @no-interrupt ret1 == nil\n'+inv+'@*/\n\n')
     splice(f'/repo/homescript/{pkg}/zz_contracts_verif.go',''.join(r))
 
